@@ -121,14 +121,89 @@ def run(ctx):
                 while k < len(ops) and not ops[k].startswith("new"):
                     k += 1
                 ctx.sample({"ops": ops[j:min(k, j + 6)], "impl": impl[j:min(k, j + 6)]})
+    driver_stream(ctx)
     return 0
 
 
+STEP_RE = None
+
+
+def step_lines(log):
+    """(step number, start time text, dt text) of every 'Starting hydro step' line of a run's log"""
+    import re
+    global STEP_RE
+    if STEP_RE is None:
+        STEP_RE = re.compile(r"Starting hydro step (\d+), t = (\S+) \S+, dt = (\S+) ")
+    return [(int(m.group(1)), m.group(2), m.group(3)) for m in STEP_RE.finditer(log)]
+
+
+def driver_case(binary, layout, per, total, k):
+    """uninterrupted run vs `--number-of-steps k` + `--restart .` of the same pure-hydro problem, one thread:
+    the restarted run must take exactly the steps the uninterrupted one takes (clause 'a time line saved and
+    restored in the middle of a run continues identically', at the level of the driver that owns the time line)"""
+    import os, shutil, tempfile
+    import simrun
+    param = simrun.hydro_param(layout, per, cells_per_subgrid=(2, 2, 2), total_time=total).replace("output interval: 100000. s", "output interval: 0. s")
+    d1, d2 = tempfile.mkdtemp(prefix="verif_c19a_"), tempfile.mkdtemp(prefix="verif_c19b_")
+    try:
+        a = simrun.run_sim(binary, param, ["--task-based-rhd"], threads=1, timeout=120, trace=False, workdir=d1)
+        b1 = simrun.run_sim(binary, param, ["--task-based-rhd", "--number-of-steps", str(k)], threads=1, timeout=120, trace=False, workdir=d2)
+        b2 = simrun.run_sim(binary, param, ["--task-based-rhd", "--restart", "."], threads=1, timeout=120, trace=False, workdir=d2)
+        return param, a, b1, b2
+    finally:
+        shutil.rmtree(d1, ignore_errors=True)
+        shutil.rmtree(d2, ignore_errors=True)
+
+
+def driver_stream(ctx, only=None):
+    """whole-binary tie of the restore clause: the driver (TaskBasedRadiationHydrodynamicsSimulation.cpp) dumps and
+    restores the time line together with what it derived from it (requested / actual step, has-next flag)"""
+    binary = vlib.full_binary()
+    st = ctx.cov["correspondence_streams"].setdefault("driver-restart", {"lines": 0, "mismatches": 0, "oracle_failures": 0})
+    cases = only or [((1, 1, 1), (True, True, True), 0.004, ctx.rng.choice([1, 2, 3])),
+                     ((2, 1, 1), (False, True, True), 0.003, ctx.rng.choice([2, 4, 5]))]
+    if ctx.thorough and not only:
+        cases += [((1, 2, 1), (True, False, True), 0.005, kk) for kk in (1, 3, 6, 9)]
+    bad = 0
+    for (layout, per, total, k) in cases:
+        param, a, b1, b2 = driver_case(binary, layout, per, total, k)
+        ctx.count()
+        ctx.branch("driver-restart-runs")
+        rep = {"stream": "driver-restart", "layout": layout, "periodicity": per, "total_time": total, "stop_after": k, "param": param,
+               "cmd": "CMacIonize --params run.param --threads 1 --task-based-rhd [--number-of-steps %d | --restart .]" % k}
+        for (nm, r) in (("uninterrupted", a), ("first part", b1), ("restarted", b2)):
+            if r["timed_out"] or r["rc"] != 0:
+                st["oracle_failures"] += 1
+                bad += 1
+                ctx.violation("driver:run-failed", "%s run (layout %s, stop after %d) ended with %s: %s" % (nm, layout, k, "a time-out" if r["timed_out"] else "status %d" % r["rc"], r["log"][-300:]), rep)
+                break
+        else:
+            sa, sb = step_lines(a["log"]), step_lines(b1["log"]) + step_lines(b2["log"])
+            st["lines"] += len(sa)
+            if len(sa) < k + 2:
+                ctx.notes.append("driver-restart case %s: only %d steps in the uninterrupted run (stop after %d)" % (layout, len(sa), k))
+                continue
+            if sa != sb:
+                st["oracle_failures"] += 1
+                bad += 1
+                i = next((j for j in range(min(len(sa), len(sb))) if sa[j] != sb[j]), min(len(sa), len(sb)))
+                ctx.violation("driver:restarted-run-takes-different-steps",
+                              "pure-hydro run, one thread, layout %s: stopped after %d steps and restarted it takes %d steps, uninterrupted %d; first difference at position %d: restarted %r, uninterrupted %r"
+                              % (layout, k, len(sb), len(sa), i, sb[i] if i < len(sb) else None, sa[i] if i < len(sa) else None), rep)
+    return bad
+
+
 def replay(ctx, path):
+    import json
+    obj = json.load(open(path))
+    if obj.get("stream") == "driver-restart":
+        n = driver_stream(ctx, only=[(tuple(obj["layout"]), tuple(obj["periodicity"]), obj["total_time"], obj["stop_after"])])
+        print("REPRODUCED" if n else "not reproduced")
+        return 1 if n else 0
     return vlib.generic_replay(ctx, path, "c19", "drv_c19")
 
 MANIFEST = dict(
     category="proof",
-    text="Lean theorems over the integer time line for every history of requests (power-of-two step, divides the remainder, <= request and maximum, strictly increasing, never past 2^63, ends exactly, steps sum to the interval, restore = id, largest admissible step); model tied to TimeLine.hpp by exact differential runs (integers and double bit patterns identical) plus the property oracle on the implementation.",
+    text="Lean theorems over the integer time line for every history of requests (power-of-two step, divides the remainder, <= request and maximum, strictly increasing, never past 2^63, ends exactly, steps sum to the interval, restore = id, largest admissible step); model tied to TimeLine.hpp by exact differential runs (integers and double bit patterns identical) plus the property oracle on the implementation; the restore clause is also run at driver level (whole binary: stop after k steps + restart takes exactly the steps of the uninterrupted run).",
     note="Trusted: Lean kernel + 3 standard axioms; hand model of TimeLine.hpp; exactness of A*2^k in doubles (no underflow); theorems concern the integer clock, the reported double time is only compared; callers stop after advance() returned false; requests >= 0.",
     technique="Lean 4 proof by induction over the request history + exact differential correspondence")
